@@ -422,6 +422,19 @@ def list_method(self, st, ref, o, name, args, kwargs, node):
         if o.items is not None and len(args) == 1 and all(_plain(x) for x in o.items) and _plain(args[0]) and args[0] in o.items:
             o.items = list(o.items)
             o.items.remove(args[0])
+        elif o.items is not None and len(args) == 1 and isinstance(args[0], Ref) and not isinstance(st.obj(args[0]).cls, ClassInfo):
+            # class-less tokens compare by identity
+            for i, x in enumerate(o.items):
+                if isinstance(x, Ref) and x.oid == args[0].oid:
+                    o.items = list(o.items)
+                    del o.items[i]
+                    break
+        elif o.items is not None and len(args) == 1 and isinstance(args[0], Ref):
+            for i, x in enumerate(o.items):
+                if isinstance(x, Ref) and x.oid == args[0].oid:
+                    o.items = list(o.items)
+                    del o.items[i]
+                    break
         return [(st, "val", None)]
     raise U("list.%s at %s" % (name, self.loc(node)))
 
